@@ -163,6 +163,30 @@ class Ptr:
         self.slack = slack  # the true offset lies in [off, off+slack] (pointer rounded up to an alignment the object lacks)
 
 
+class PtrAfter(Opaque):
+    """truth value of `object A lies after object B in memory` (two distinct objects): unknown, but one and the same unknown
+    wherever the pair is compared"""
+    __slots__ = ('A', 'B')
+
+    def __init__(self, A, B):
+        Opaque.__init__(self, 'order of two objects')
+        self.A, self.B = A, B
+
+
+class PtrDiff(Opaque):
+    """address of p minus address of q, pointers into two distinct objects (in-bounds constant offsets)"""
+    __slots__ = ('p', 'q', 'abs')
+
+    def __init__(self, p, q, abs=False):
+        Opaque.__init__(self, 'distance of two objects')
+        self.p, self.q, self.abs = p, q, abs      # abs: |p - q|
+
+    def lower(self):
+        """lower bound of |p - q|: the later object starts at or after the end of the earlier one"""
+        p, q = self.p, self.q
+        return min(q.obj.size - q.off + p.off, p.obj.size - p.off + q.off)
+
+
 class AlignDep(Opaque):
     """a value that depends on the low address bits of a buffer whose alignment is not guaranteed; `assume` is its value
     if the buffer happened to be aligned"""
